@@ -1,6 +1,8 @@
 (* Proof obligations over facts regenerated from /repo on every check (Generated/SourceFacts.v,
-   written by harness/cmd/facts).  Topic: stack.  When an edit of the sources changes a fact, the
-   lemma below stops compiling; the checks of the properties that depend on this topic then report
+   written by harness/cmd/facts).  Topic: stack.  The facts are semantic summaries (orders, literal
+   sets, capacity classes, parent classes of contexts, lock events per path), so a behaviour-
+   preserving rewrite regenerates the same facts; when an edit changes what the theorems rest on,
+   the lemma below stops compiling, the checks of the properties that depend on this topic report
    the broken obligation by name and search for a failing input. *)
 From Coq Require Import List String ZArith Bool.
 Import ListNotations.
@@ -10,14 +12,16 @@ Open Scope string_scope.
 
 (* execution order of a backend stack is the reverse of this list: RequestBuilder -> [Concurrent] ->
    FilterQueryStrings -> FilterHeaders -> GraphQL -> LoadBalanced (renders Query into URL) ->
-   BackendPlugin -> backend *)
-Lemma stack_order_ok : stack_newStack =
-  ["pf.backendFactory"; "NewBackendPluginMiddleware"; "NewLoadBalancedMiddlewareWithSubscriberAndLogger";
-   "NewGraphQLMiddleware"; "NewFilterHeadersMiddleware"; "NewFilterQueryStringsMiddleware";
-   "NewConcurrentMiddlewareWithLogger"; "NewRequestBuilderMiddlewareWithLogger"].
-Proof. reflexivity. Qed.
-
-(* the tie to the models: the order the C08 model (and through it the C07 / C10 stack models, whose
-   literals are proved equal to it in their Properties files) executes is the regenerated one *)
+   BackendPlugin -> backend.  It is the order the C08 model executes (and through it the C07 / C10
+   stack models, whose literals are proved equal to it in their Properties files). *)
 Lemma stack_matches_model : stack_newStack = Verif.Model.C08.newStack_names.
 Proof. reflexivity. Qed.
+(* the parts of that order single theorems rest on: the URL is rendered after the filters and the
+   GraphQL stage decided the query (C07 C08 C10) *)
+Lemma stack_order_ok :
+  before "NewLoadBalancedMiddlewareWithSubscriberAndLogger" "NewGraphQLMiddleware" stack_newStack = true /\
+  before "NewLoadBalancedMiddlewareWithSubscriberAndLogger" "NewFilterQueryStringsMiddleware" stack_newStack = true /\
+  before "NewLoadBalancedMiddlewareWithSubscriberAndLogger" "NewFilterHeadersMiddleware" stack_newStack = true /\
+  before "NewGraphQLMiddleware" "NewFilterHeadersMiddleware" stack_newStack = true /\
+  before "NewFilterQueryStringsMiddleware" "NewRequestBuilderMiddlewareWithLogger" stack_newStack = true.
+Proof. repeat split; vm_compute; reflexivity. Qed.
